@@ -274,7 +274,7 @@ def prev_any_mut(case, step):
 
 
 def reach(counters, tier, info):
-    k = 1 if tier == "quick" else 20
+    k = 0.5 if tier == "quick" else 20
     out = []
     for name, key, need in [("remove_elements calls", "op:remove_subset", 500 * k), ("rate filters", "op:rate", 500 * k),
                             ("remove_empty_rankings calls", "op:remove_empty", 200 * k),
